@@ -505,6 +505,122 @@ def work_free(chunk, refs=None):
     return acc
 
 
+# ---------------------------------------------------------------------------------------------
+# re-entrancy: the user function of one library object itself uses another library object (nested
+# derivatives).  Oracle without expected values: (1) every inner call made during the nested run must be bit-identical
+# to the same inner call made alone from the pristine state; (2) the outer result must be bit-identical to the outer
+# object run on a pure table function that returns the recorded inner values.  Scratch state of the library that
+# lives at class / module level across an evaluation of the user function fails (2); results of the inner object
+# that depend on the outer object being in the middle of a call fail (1).
+
+def nested_cases():
+    out = []
+    for oi, ocfg in enumerate(POOL_ALL):
+        if ocfg[1] == 'complex':
+            continue                      # (a complex-step outer object hands complex points to the inner one)
+        oc = cls_of(ocfg)
+        for ii, icfg in enumerate(POOL_ALL):
+            ic = cls_of(icfg)
+            if oc == 'Derivative' and ic != 'Derivative':
+                continue                  # scalar outer point: the inner object must accept it
+            if oc != 'Derivative' and ic == 'Jacobian' and oc != 'Jacobian':
+                pass
+            for share in ('own', 'max'):
+                if share == 'max' and (ocfg[4] != 'default' or icfg[4] != 'default'):
+                    continue
+                out.append((oi, ii, share))
+    return out
+
+
+def _nested_run(oi, ii, share, table=None):
+    """returns (observation of the outer call, [(x bytes, x, observation of the inner call)])"""
+    from numdifftools.step_generators import MaxStepGenerator
+    ocfg, icfg = POOL_ALL[oi], POOL_ALL[ii]
+    oc, ic = cls_of(ocfg), cls_of(icfg)
+    shared = {'max': MaxStepGenerator(), 'min': None} if share == 'max' else None
+    gen_o = 'max' if share == 'max' else ocfg[4]
+    gen_i = 'max' if share == 'max' else icfg[4]
+    inner = ref.build(icfg[0], icfg[1], icfg[2], icfg[3], gen_i, shared=shared, cls=ic)
+    log = []
+
+    def inner_value(x):
+        xa = np.array(x, dtype=float, copy=True)
+        key = (xa.shape, xa.tobytes())
+        if table is not None:
+            obs = table[key]
+        else:
+            obs = ref.observe_array(inner, xa)
+            log.append((key, xa, obs))
+        if obs[0] != 'ok':
+            raise _Abort()
+        dt, shp, hx = obs[1]
+        return np.frombuffer(bytes.fromhex(hx), dtype=dt).reshape(shp)
+
+    if oc == 'Derivative':
+        def g(x):
+            return inner_value(x)
+    elif oc == 'Jacobian':
+        def g(x):
+            return np.atleast_1d(inner_value(x)).ravel() * 1.0
+    else:
+        def g(x):
+            return float(np.sum(inner_value(x)))
+    ref.FUNS['__nested__'] = g
+    try:
+        outer = ref.build('__nested__', ocfg[1], ocfg[2], ocfg[3], gen_o, shared=shared, cls=oc)
+        x = XS[0] if oc == 'Derivative' else XS[2]
+        obs = ref.observe(outer, x)
+    finally:
+        ref.FUNS.pop('__nested__', None)
+    return obs, log
+
+
+def work_nested(chunk):
+    acc = fw.Acc()
+    for oi, ii, share in chunk:
+        case = dict(kind='nested', outer=oi, inner=ii, share=share)
+        desc = 'outer %r, inner %r%s' % (POOL_ALL[oi], POOL_ALL[ii], ', one shared MaxStepGenerator' if share == 'max' else '')
+        fw.fresh_library_state()
+        obs, log = _nested_run(oi, ii, share)
+        table = {}
+        bad_inner = None
+        for key, xa, o in log:
+            if key in table:
+                if table[key] != o and bad_inner is None:
+                    bad_inner = 'the inner object returned two different results for the same point %r during one outer call' % (xa.tolist(),)
+                continue
+            table[key] = o
+        # (1) every distinct inner call alone, from the pristine state
+        for key, xa, o in log:
+            if bad_inner or table.get(key) is not o:
+                continue
+            fw.fresh_library_state()
+            icfg = POOL_ALL[ii]
+            alone = ref.observe_array(ref.build(icfg[0], icfg[1], icfg[2], icfg[3], 'max' if share == 'max' else icfg[4],
+                                                cls=cls_of(icfg)), xa.copy())
+            if alone != o:
+                bad_inner = ('inner call at %r inside the outer call: %s; the same call alone: %s'
+                             % (xa.tolist(), _short(o), _short(alone)))
+        # (2) the outer object on the recorded table
+        fw.fresh_library_state()
+        try:
+            obs_t, _ = _nested_run(oi, ii, share, table=table)
+        except KeyError:
+            obs_t = ['exc', 'outer object evaluated its function at a point it did not evaluate in the nested run']
+        acc.case(('nested', oi, ii, share), nontrivial=len(log) >= 2, cell=['nested/%s-in-%s' % (cls_of(POOL_ALL[ii]), cls_of(POOL_ALL[oi])),
+                                                                          'nested/share=' + share],
+                 outcome=(bad_inner is None, obs_t == obs), n_eval=len(log) + 2)
+        acc.count('nested_inner_calls', len(log))
+        if bad_inner:
+            acc.violation('C09:nested:inner-result-depends-on-outer-call', case, '%s: %s' % (desc, bad_inner), rank=oi * 20 + ii)
+        if obs_t != obs:
+            acc.violation('C09:nested:outer-result-depends-on-inner-use', case,
+                          '%s: nested result %s, the same outer call on the recorded table of inner values %s'
+                          % (desc, _short(obs), _short(obs_t)), rank=oi * 20 + ii)
+    fw.fresh_library_state()
+    return acc
+
+
 def run(ctx):
     q = ctx.quick
     refs = collect_refs(ctx)
@@ -539,6 +655,7 @@ def run(ctx):
     sacc = ctx.pmap(work_sched, jobs, chunk=1, refs=refs)
     acc.merge(sacc)
     acc.merge(ctx.pmap(work_free, list(range(4 if q else 16)), chunk=1, refs=refs))
+    acc.merge(ctx.pmap(work_nested, nested_cases(), chunk=2))
     nsched = int(acc.counters.get('schedules', 0))
     acc.sample(dict(kind='history', ops=[['new', 'A', 0, 'max'], ['call', 'A', 1], ['set', 'A', 'n', 2], ['restore', 'A'],
                                          ['call', 'A', 0]]))
@@ -550,6 +667,7 @@ def run(ctx):
                preemption_bound_completed=dict(line=1 if q else 2, instruction=0 if q else 1, three_threads=0 if q else 1))
     req = ['sched/%s/line/b1' % '-'.join(str(c) for c in cis) for cis in PAIRS + MPAIRS] + ['hist/central', 'hist/forward',
                                                                                    'hist/complex']
+    req += ['nested/Derivative-in-Derivative', 'nested/Hessdiag-in-Hessdiag', 'nested/Gradient-in-Hessian', 'nested/share=max']
     rule = ('references: one fresh interpreter per (configuration, point) (%d subprocesses). E2: BFS over histories of '
             '{new (own / shared Max / shared Min generator), call at 3 points, set n|order|method, restore, clear cache, '
             'warm cache} on 2 object slots and a pool of 6 configurations, merged on an exact digest of all library '
@@ -557,7 +675,9 @@ def run(ctx):
             'object with {call, in-place-updated array call, set, restore}; every call compared bit for bit with the '
             'reference. E3: every interleaving of the thread tuples %r with <= %d pre-emption(s) at every executed '
             'library line%s, observations and final rule cache compared with the references; + a free-running '
-            '16-thread pass (auxiliary).  Non-trivial = history of >= 2 earlier operations / schedule with >= 1 '
+            '16-thread pass (auxiliary).  Re-entrancy: every compatible (outer, inner) pair of the 11 configurations with the '
+            'inner object used inside the outer object\'s function (own generators / one shared MaxStepGenerator): inner calls '
+            'bit-identical to the same calls alone, outer result bit-identical to the outer object run on the recorded table.  Non-trivial = history of >= 2 earlier operations / schedule with >= 1 '
             'pre-emption.' % (len(refs), hs['depth'], hs['single_object_depth'], PAIRS if q else PAIRS + TRIPLES, 1 if q else 2,
                               '' if q else ' (bound 1 at every bytecode instruction; 3 threads bound 1)'))
     return fw.finish(ctx, acc, LEVEL, rule, exhaustive=True, required_cells=req, coverage_extra=cov,
@@ -622,4 +742,8 @@ def replay(case):
         ok = all(r[0] == 'ok' and r[1] == w for r, w in zip(res[0], wants))
         return ok, 'schedule %r on %r -> %s' % (sched, [POOL_ALL[c] for c in cis],
                                                 [(_short(r[1]) if r[0] == 'ok' else r) for r in res[0]])
+    if kind == 'nested':
+        a = work_nested([(case['outer'], case['inner'], case['share'])])
+        bad = [r['detail'] for k, (n, recs) in a.viol.items() for r in recs]
+        return not bad, 'nested use %r -> %s' % (case, bad or 'ok')
     return True, 'nothing to replay for %r' % kind
